@@ -13,6 +13,8 @@ respond <legacy> <transport> <cfgMax> <idleMs> <draw> <slack> <draw2>
       <reqOpt 0|1> <reqSize> <reqDo> <reqOpts>
       <wrote|silent|failed0|failed1> <the 17 response fields of `serve` (ignored unless `wrote`)>
 maxsize <isUdp> <edns> <cap>
+dcenv <isUdp> <advertised> <len>      -- DNSCrypt envelope: `dcSize encLen prefix frameOk`
+dcaccept <hdrResponse> <nq>           -- does the DNSCrypt library hand the query to the handler?
 ```
 `respond` answers `none` when nothing reaches the wire.
 Lists are comma separated, `_` is the empty list; options are `code:len`.
@@ -88,6 +90,10 @@ def step (s : Unit) : List String → Unit × String
         | none => (s, "none")
         | some o => (s, showOut o)
     | _, _ => (s, "bad-op")
+  | ["dcenv", isUdp, adv, len] =>
+    (s, s!"{dcSize (bool! isUdp) (nat! adv)} {dcEncLen (nat! len)} {dcPrefix (nat! len)} {showB (dcFrameOk (nat! len))}")
+  | ["dcaccept", hresp, nq] =>
+    (s, showB (dcAccepts { response := bool! hresp, opcode := 0, nq := nat! nq, nans := 0, nns := 0 }))
   | ["maxsize", isUdp, edns, cap] =>
     (s, toString (maxDNSSize (bool! isUdp) (nat! edns) (nat! cap)))
   | _ => (s, "bad-op")
